@@ -289,7 +289,7 @@ fn generated(depth3: bool) -> impl Fn(Tier) -> BoxedStrategy<Case> + Send + Sync
                 if spec.needs_positive_input() {
                     cfg = cfg.positive();
                 }
-                gen::stream(cfg).prop_map(move |xs| Case { spec: Some(spec.clone()), xs, ints: vec![scalar], a: Rat(1, 1), ..Default::default() })
+                gen::stream_nz(cfg).prop_map(move |xs| Case { spec: Some(spec.clone()), xs, ints: vec![scalar], a: Rat(1, 1), ..Default::default() })
             })
             .boxed()
     }
